@@ -6,7 +6,7 @@
    later in the list, a timer may run long after it woke up (also after it was cancelled meanwhile).
    `Inv` (Proofs.v) holds in every reachable state (C10_invariant).  Examples.v (imported so that it is
    re-checked) replays the defects of the code before the fix on variant Legacy. *)
-From CF Require Import Common.Bytes C10.Model C10.Proofs C10.Proofs_b C10.Proofs_c C10.Proofs_e C10.Proofs_f C10.Lock C10.DriverClose C10.Examples.
+From CF Require Import Common.Bytes C10.Model C10.Proofs C10.Proofs_b C10.Proofs_c C10.Proofs_e C10.Proofs_f C10.Lock C10.DriverClose C10.CloseSteps C10.Examples.
 Open Scope Z_scope.
 
 (* Every reachable state: patterns are distinct keys; each pending pattern has a live (armed or
@@ -283,3 +283,24 @@ Theorem C10_closed_driver_can_reconnect : forall s f,
   snd (dstep ClearAlways s1 DConnect) = 0 /\ handle (fst (dstep ClearAlways s1 DConnect)) = Some (nconn s).
 Proof. exact closed_driver_can_reconnect. Qed.
 Print Assumptions C10_closed_driver_can_reconnect.
+
+(* ---- close_link() as steps, with another thread acting between them (C10/CloseSteps.v) ---- *)
+(* close_link = ... self.link = None (drop_link) ... _cancel_answer_timers() (cancel_step) ...: the cancel comes AFTER the
+   link is gone.  For EVERY interleaving of senders (requests sent, arrivals handled by other threads) with these steps —
+   before the link is dropped (driver still open or already closed), between drop and cancel, after the cancel — nothing is
+   pending, no timer is armed and there is no link when close_link is over: no timer outlives the close ... *)
+Theorem C10_no_timer_outlives_close : forall s before mid after,
+  Inv s -> Forall sender_event mid -> Forall sender_event after ->
+  let s' := close_steps s before mid after in
+  pats s' = [] /\ link s' = None /\ (forall j t, nth_error (timers s') j = Some t -> t_status t <> Armed) /\ Inv s'.
+Proof. exact no_timer_outlives_close. Qed.
+Print Assumptions C10_no_timer_outlives_close.
+
+(* ... hence no request of the closed session is transmitted in anything that follows (an immediately reopened link
+   included), unless it is sent again. *)
+Theorem C10_nothing_of_closed_session_later : forall s before mid after evs r,
+  Inv s -> Forall sender_event mid -> Forall sender_event after ->
+  Forall (fun e => ~ is_send_of r e) evs ->
+  Forall (fun o => ~ tx_of r o) (snd (run Fixed (close_steps s before mid after) evs)).
+Proof. exact nothing_of_closed_session_later. Qed.
+Print Assumptions C10_nothing_of_closed_session_later.
